@@ -472,6 +472,13 @@ class SymArr:
         if isinstance(idx, tuple) and idx and isinstance(idx[0], SymArr) and _is_bool_arr(idx[0]) and \
                 all(isinstance(i, slice) and i == slice(None) for i in idx[1:]):
             return self._compress(idx[0])
+        if isinstance(idx, tuple) and idx and idx[0] is None and any(isinstance(i, SymArr) for i in idx[1:]):
+            # a[np.newaxis, mask, ...]: index without the new leading axes, then add them
+            k = 0
+            while k < len(idx) and idx[k] is None:
+                k += 1
+            inner_res = self[tuple(idx[k:]) if len(idx) - k > 1 else idx[k]]
+            return inner_res[(None,) * k + (Ellipsis,)]
         if isinstance(idx, list) and getattr(idx, "sym", None) is not None:
             idx = idx.sym            # list filled by one append per iteration of a generic loop
         if isinstance(idx, SymSeq):
@@ -672,8 +679,13 @@ class SymArr:
         new_axes = self.axes[:axis] + self.axes[axis + 1:]
         if isinstance(a, Dim):
             g = self.guard
-            inner = _map(lambda v: wrap(sym_red(a, _sx(v), g)), self.inner)
-            new_guard = None
+            if g is not None and not sp.sympify(g).has(a.k):
+                # the guard (rows kept by a boolean mask) is about another axis: it stays on the result
+                inner = _map(lambda v: wrap(sym_red(a, _sx(v), None)), self.inner)
+                new_guard = g
+            else:
+                inner = _map(lambda v: wrap(sym_red(a, _sx(v), g)), self.inner)
+                new_guard = None
         else:
             inner = con_red(self.inner, self._caxis(axis))
             if not isinstance(inner, np.ndarray):
